@@ -5,8 +5,10 @@
     violated clause:
 
       1  Running() observed closed while a handler registered before Run has no subscription
+         (not judged once Close was called: Close removes the handlers that were never started)
       2  a second successful Subscribe for the same handler
       10 RunHandlers returned nil while a handler added before the call has no subscription
+         (not judged once Close was called, as for 1)
       3  Stop() called after Started() was observed closed panicked
       4  Stopped() returned nil after Started() was observed closed
       5  a handler failed to process (publish) although nobody closed its publisher
@@ -76,13 +78,15 @@ Definition mon_step (m : mstate) (e : aev) : mstate :=
       if ok && m_run2 m t then bad m' 7 else m'
   | ARunningObs =>
       let m' := m <| m_running := true |> in
-      if forallb (m_subs m) (seq 0 (m_n_at_run m)) then m' else bad m' 1
+      (* a Close that ran before Running() closed may have released and removed handlers that were never
+         started (D16 repair): they are no longer registered *)
+      if m_closecalled m || forallb (m_subs m) (seq 0 (m_n_at_run m)) then m' else bad m' 1
   | ASubscribe h ok =>
       if ok then (if m_subs m h then bad m 2 else m <| m_subs := upd (m_subs m) h true |>)
       else m <| m_global := true |>
   | ARHCall t => m <| m_rh_n := upd (m_rh_n m) t (m_n m) |>
   | ARHRet t ok =>
-      if ok then (if forallb (m_subs m) (seq 0 (m_rh_n m t)) then m else bad m 10) else m
+      if ok then (if m_closecalled m || forallb (m_subs m) (seq 0 (m_rh_n m t)) then m else bad m 10) else m
   | AStartedObs h => m <| m_sobs := upd (m_sobs m) h true |>
   | AStopCall t h =>
       note_reason (m <| m_stopafter := upd (m_stopafter m) t (m_sobs m h) |>
